@@ -608,6 +608,27 @@ impl IndexTable {
 	}
 }
 
+/// Verification hook: runs the page search used by index lookups on a caller supplied page.
+/// `fast` selects the vectorised path used in production (on x86_64), otherwise the scalar
+/// reference path. Returns the raw entry and its slot.
+#[cfg(feature = "verif")]
+pub fn verif_find_entry(
+	index_bits: u8,
+	key_prefix: u64,
+	sub_index: usize,
+	chunk: &[u8; CHUNK_LEN],
+	fast: bool,
+) -> (u64, usize) {
+	let table = IndexTable::create_new(std::path::Path::new(""), TableId::new(0, index_bits));
+	let chunk = Chunk(*chunk);
+	let (entry, slot) = if fast {
+		table.find_entry(key_prefix, sub_index, &chunk)
+	} else {
+		table.find_entry_base(key_prefix, sub_index, &chunk)
+	};
+	(entry.as_u64(), slot)
+}
+
 #[cfg(test)]
 mod test {
 	use super::*;
